@@ -1,5 +1,5 @@
 -- GENERATED from /repo by /verif/extract/extract.py on every run. Do not edit.
 import RjModel.Model.Walker
 namespace Rj.Generated
-def walkFeatures : WalkFeatures := ⟨false, true, true, false, true, true⟩
+def walkFeatures : WalkFeatures := ⟨true, true, true, true, true, true⟩
 end Rj.Generated
